@@ -269,7 +269,10 @@ pub fn mut_step(d: &mut Driver, ch: &mut dyn Chooser, i: usize, full: bool) {
             let r = match sb {
                 Src::B(c) => run(d, "put(Bytes)", move || m.put(c)),
                 Src::S(sl) => run(d, "put(&[u8])", move || m.put(&sl[..])),
+                #[cfg(feature = "std")]
                 Src::C(sl) => run(d, "put(Cursor)", move || m.put(std::io::Cursor::new(sl))),
+                #[cfg(not(feature = "std"))]
+                Src::C(sl) => run(d, "put(&[u8])", move || m.put(&sl[..])),
             };
             if r.is_some() {
                 d.cell(format!("M|{rname}|put_buf|-|ok"));
